@@ -138,10 +138,35 @@ def run(ctx, prefix, profiles, mc_inv, known_design=()):
     # ---- 3. REPLAY on the real code
     cases = vf.write_ndjson(ctx.path("walks.ndjson"), runs)
     obsf = ctx.path("obs.ndjson")
-    vf.gotest_ok(ctx, "./internal/core/", "^TestVerif_Path_Replay$", cases=cases, out=obsf, timeout=1500)
+    rc, gout = vf.gotest(ctx, "./internal/core/", "^TestVerif_Path_Replay$", cases=cases, out=obsf, timeout=1500)
+    if rc != 0:
+        # a panic of the code under test (not of the harness) while a legal walk is replayed takes the whole server
+        # down: every held request stays unanswered and every open hook pair stays open - a verdict of its own
+        import re
+        m = re.search(r"(?:^|\n)panic: (.*)\n", gout)
+        if m:
+            after = gout[m.end():]
+            frames = re.findall(r"\n(github\.com/bluenviron/mediamtx/internal/\S+)\([^\n]*\n\t(\S+?):(\d+)", after)
+            mine = [f for f in frames if "zz_verif" not in f[1] and "/verifrt/" not in f[1]]
+            first = frames[0] if frames else None
+            if mine and first and "zz_verif" not in first[1] and "/verifrt/" not in first[1]:
+                fn = mine[0][0].split("/")[-1]
+                ctx.violation({"monitor": prefix + "NoCrash", "function": fn},
+                              "the code under test panicked while a walk of the model was replayed (%s in %s at %s:%s); "
+                              "the server process would exit: held requests stay unanswered, open hook pairs stay open\n%s"
+                              % (m.group(1), fn, mine[0][1], mine[0][2], after[:2500]))
+                ctx.set("traces_validated_against_impl", 0)
+                ctx.sample({"panic": m.group(1), "function": fn})
+                return
+        raise vf.Infra("harness test failed (rc=%d) ./internal/core/ TestVerif_Path_Replay\n%s" % (rc, gout[-6000:]))
     obs = vf.read_ndjson(obsf)
     if len(obs) != len(runs):
         raise vf.Infra("harness replayed %d of %d walks" % (len(obs), len(runs)))
+    # runs skipped after several hanging runs (the hang verdicts are in the executed ones)
+    skipped = [o for o in obs if o.get("skipped")]
+    if skipped:
+        ctx.set("walks_skipped_after_hangs", len(skipped))
+        obs = [o for o in obs if not o.get("skipped")]
 
     t_rep = time.time()
     # ---- 4. TV per profile
